@@ -74,7 +74,7 @@ def r1(ctx, R):
     gd = ctx.func("SharedSpaceOperations.get_deriv_bases")
     R.inst("get_deriv_bases walks get_mro(parent)[1:] in order, appending members of that name")
     lp = [x for x in walk_local(gd.node) if isinstance(x, ast.For)]
-    if not lp or norm(lp[0].iter) != "graph.get_mro(pnode)[1:]" or not q.calls(gd, name="append", recv="bases"):
+    if not lp or q.anorm(gd, lp[0].iter) != "graph.get_mro(deriv.parent.idstr)[1:]" or not q.calls(gd, name="append", recv="bases"):
         R.bad(gd, gd.node, "bases of a derived member are not collected along the MRO", stmt="for bspace in get_mro")
     else:
         ap = q.calls(gd, name="append", recv="bases")[0]
@@ -101,9 +101,10 @@ def r1(ctx, R):
         fi = ctx.func(spec)
         ae = [c for c in q.calls(fi, name="add_edge") if kw(c, "index") is not None]
         R.inst("%s: new base edges get index max_index(node) + 1" % spec)
-        if not ae or norm(kw(ae[0], "index")) != "self._graph.max_index(node) + 1":
+        nd = "node" if spec.endswith("new_space") else "space.idstr"     # canonical spelling of the edited node
+        if not ae or q.anorm(fi, kw(ae[0], "index")) != "self._graph.max_index(%s) + 1" % nd:
             R.bad(fi, fi.node, "a new base does not come after the existing ones", stmt="index=")
-        elif [norm(a) for a in ae[0].args[:2]] not in (["base", "node"], ["b", "node"]):
+        elif [q.anorm(fi, a) for a in ae[0].args[:2]] not in (["b.idstr", nd], ["b", nd]):
             R.bad(fi, ae[0], "edge direction is not base -> sub")
     ui = ctx.func("UserSpaceImpl.on_inherit")
     R.inst("UserSpaceImpl.on_inherit: bs = defined members of that name in map (MRO) order")
@@ -368,11 +369,11 @@ def r4(ctx, R):
             continue
         if graph is not None and norm(lps[0].iter.args[0]) != graph:
             R.bad(fi, lps[0], "descendants are enumerated on the graph from which the edges were already removed")
-        want_src = "nodes_removed" if spec == "SpaceUpdater.del_defined_space" else "node"
-        if [norm(a) for a in lps[0].iter.args[1:2]] != [want_src]:
+        want_src = {"SpaceUpdater.del_defined_space": "nodes_removed", "SpaceUpdater.new_space": "node"}.get(spec, "space.idstr")
+        if [q.anorm(fi, a) for a in lps[0].iter.args[1:2]] != [want_src]:
             R.bad(fi, lps[0], "descendants are not enumerated from %s" % (
                 "every node of the deleted subtree: spaces inheriting from a child of the deleted space keep its members"
-                if want_src != "node" else "the edited node"))
+                if want_src == "nodes_removed" else "the edited node"))
         if spec != "SpaceUpdater.del_defined_space":
             direct = [r_ for r_ in refs if not any(r_ in list(ast.walk(l)) for l in lps)]
             if not direct:
